@@ -16,12 +16,12 @@ def calls(kind=None):
     return [c for c in stubs.CALLS if kind is None or c["kind"] == kind]
 
 
-def build(cx, ftype, minimizer, cost="chi2_fast", model=None, sources=(), constraints=(), fixed=(), limits=(), n=2, start="sym", **kw):
+def build(cx, ftype, minimizer, cost="chi2_fast", model=None, sources=(), constraints=(), fixed=(), limits=(), n=2, start="sym", rho="sym", **kw):
     """a fit problem ready for do_fit(); fixed: names fixed at a symbolic value; limits: names limited to symbolic [lo, hi]"""
     stubs.reset()
     pb = Problem(cx, ftype, n=n, cost=cost, model=model, minimizer=minimizer, **kw)
     for i, (kind, axis, ref) in enumerate(sources):
-        pb.add_source(kind, "s%d" % i, axis=axis, reference=ref)
+        pb.add_source(kind, "s%d" % i, axis=axis, reference=ref, rho=rho)
     for j, c in enumerate(constraints):
         pb.add_constraint(c, tag="k%d" % j)
     if start == "sym":
